@@ -2,12 +2,13 @@ SPECIFICATION MCSpec
 CONSTANTS
   ShapeNames = {"chain0","chain1","chain2","chain3","selfcyc","cyc2","tailcyc","missparent","missgrand","nosel","sidecyc"}
   ModeNames = {"nocfg","none","flag","flagenv","env","envnoprof"}
-  GroupNames = {"A","B","C"}
+  GroupNames = {"A","B","C","D"}
   PairCap = 6
   ShallowMerge = FALSE
   NoCycleCheck = FALSE
   MissingParentIgnored = FALSE
   ProfileBeatsFlag = FALSE
   EnvProfileBeatsFlag = FALSE
+  WindowAsUnit = FALSE
 INVARIANTS C32_Contract C32_Winner C32_CycleReported C32_MissingReported C32_NoHang
 CHECK_DEADLOCK FALSE
